@@ -46,11 +46,12 @@ class Agg:
 class ClosureAgg(Agg):
     """closure / coroutine environment with named captures"""
 
-    __slots__ = ("names",)
+    __slots__ = ("names", "ts")
 
-    def __init__(self, ty, f, names):
+    def __init__(self, ty, f, names, ts=None):
         Agg.__init__(self, ty, f)
         self.names = names
+        self.ts = ts  # generic substitution of the defining frame
 
     def cap(self, name):
         return self.f[self.names.index(name)]
@@ -319,7 +320,7 @@ def deref_all(v):
 def copyval(v):
     """Value copy for `copy` operands / by-value aggregates (no heap ownership involved)."""
     if isinstance(v, ClosureAgg):
-        return ClosureAgg(v.ty, [copyval(x) for x in v.f], v.names)
+        return ClosureAgg(v.ty, [copyval(x) for x in v.f], v.names, v.ts)
     if isinstance(v, Agg):
         return Agg(v.ty, [copyval(x) for x in v.f], v.g)
     if isinstance(v, Enum):
@@ -333,7 +334,7 @@ def clone_value(v):
     if isinstance(v, (int, str, bool, float, tuple)) or v is None:
         return v
     if isinstance(v, ClosureAgg):
-        return ClosureAgg(v.ty, [clone_value(x) for x in v.f], v.names)
+        return ClosureAgg(v.ty, [clone_value(x) for x in v.f], v.names, v.ts)
     if isinstance(v, Agg):
         return Agg(v.ty, [clone_value(x) for x in v.f], v.g)
     if isinstance(v, Enum):
